@@ -502,6 +502,19 @@ func genMulti(g *hx.Gen, w *world) {
 				ps = append(ps, progIn{Code: code, Param: w.sigs(data, shuffle(r, ks)[:m])})
 			}
 		}
+		if r.Chance(35) { // a validly signed cross-chain (or Schnorr cross-chain) pair somewhere in the list:
+			// every OTHER pair must still be checked
+			n := 2 + r.Intn(2)
+			ks := w.pick(n)
+			m := 1 + r.Intn(n)
+			code := w.msCode(m, ks, 0xAF)
+			h := hashFor(byte(contract.PrefixCrossChain), code)
+			pr := progIn{Code: code, Param: w.sigs(data, shuffle(r, ks)[:m])}
+			at := r.Intn(len(hs) + 1)
+			hs = append(hs[:at], append([]hashIn{h}, hs[at:]...)...)
+			ps = append(ps[:at], append([]progIn{pr}, ps[at:]...)...)
+			np++
+		}
 		switch r.Intn(6) {
 		case 0: // one program signed over other data
 			k := r.Intn(np)
